@@ -52,6 +52,7 @@ fn main() {
     }
 
     let mut check = Check::new("C16", args);
+    check.level = "fault_enumeration";
     let tier = check.tier();
 
     check.rule = ec::C16_RULE.to_string();
